@@ -1,5 +1,9 @@
 use crate::{ansi::parse_next_number, EngineResult, Palette, ParserError, Position, Rectangle, Size};
 
+/// Largest picture (in pixels, each direction) the decoder builds: raster attributes, repeat counts and cursor positions
+/// beyond it are an `InvalidPictureSize` error instead of an allocation of that size.
+pub const MAX_SIXEL_SIZE: i32 = 4096;
+
 #[derive(Clone, Debug, Copy)]
 pub enum SixelState {
     Read,
@@ -146,7 +150,7 @@ impl SixelParser {
                 } else if ch == ';' {
                     self.parsed_numbers.push(0);
                 } else {
-                    if self.parsed_numbers.len() < 2 || self.parsed_numbers.len() > 4 {
+                    if self.parsed_numbers.len() < 2 || self.parsed_numbers.len() > 4 || self.parsed_numbers[2..].iter().any(|n| *n > MAX_SIXEL_SIZE) {
                         return Err(ParserError::InvalidPictureSize.into());
                     }
                     self.vertical_scale = self.parsed_numbers[0];
@@ -176,6 +180,9 @@ impl SixelParser {
                     self.parsed_numbers.push(parse_next_number(d, ch as u8));
                 } else {
                     if let Some(i) = self.parsed_numbers.first() {
+                        if *i > MAX_SIXEL_SIZE {
+                            return Err(ParserError::InvalidPictureSize.into());
+                        }
                         for _ in 0..*i {
                             self.parse_sixel_data(ch)?;
                         }
@@ -209,6 +216,9 @@ impl SixelParser {
         let mut last_line = y_pos.checked_add(6).ok_or(ParserError::InvalidPictureSize)?;
         if self.height_set && last_line > self.height() {
             last_line = self.height();
+        }
+        if x_pos >= MAX_SIXEL_SIZE || last_line > MAX_SIXEL_SIZE {
+            return Err(ParserError::InvalidPictureSize.into());
         }
 
         if (self.picture_data.len() as i32) < last_line {
